@@ -34,7 +34,12 @@ def ring_area2(ring):
     return sum(pts[i][0] * pts[i + 1][1] - pts[i + 1][0] * pts[i][1] for i in range(len(pts) - 1))
 
 
-def check_array(chk, kind, st, arr, els, hist=(), valid=False, r=None):
+def check_array(chk, kind, st, arr, els, hist=(), valid=False, r=None, scale=1.0):
+    """`els` are the integer elements; with `scale` != 1 the array holds them multiplied by that power of two (exact in float64)"""
+    def unscale(x):
+        if isinstance(x, list):
+            return [unscale(y) for y in x]
+        return None if x is None else x / scale
     n = len(els)
     rep = dict(api=f"{kind.title()}Array.oriented", kind=kind, subtype=st, elements=els, derivation=list(hist))
     sz = sum(len(geo.verts_of(kind, e)) for e in els) + n
@@ -42,13 +47,13 @@ def check_array(chk, kind, st, arr, els, hist=(), valid=False, r=None):
     before_bytes = [None if b is None else b.to_pybytes() for b in arr.data.buffers()]
     try:
         o = arr.oriented()
-        got = norm(o.data.to_pylist())
-        o2 = norm(o.oriented().data.to_pylist())
+        got = norm(unscale(o.data.to_pylist()))
+        o2 = norm(unscale(o.oriented().data.to_pylist()))
     except Exception as e:  # noqa: BLE001
         chk.violation(f"oriented/{kind}/raises-{common.err_kind(e)}", dict(rep, error=repr(e)[:300]), size=sz)
         return
     after_bytes = [None if b is None else b.to_pybytes() for b in arr.data.buffers()]
-    if before_bytes != after_bytes or norm(arr.data.to_pylist()) != norm(els):
+    if before_bytes != after_bytes or norm(unscale(arr.data.to_pylist())) != norm(els):
         chk.violation(f"oriented/{kind}/input-modified", rep, size=sz)
     if type(o) is not type(arr) or len(got) != n:
         chk.violation(f"oriented/{kind}/wrong-type-or-length", dict(rep, got=type(o).__name__), size=sz)
@@ -145,6 +150,16 @@ def run_cases(chk, tier):
             check_array(chk, kind, st, geo.make_array(kind, half, st), half, hist=["half-area rings"], r=r)
             check_array(chk, kind, st, geo.make_array(kind, half, st)[1:5], half[1:5], hist=["half-area rings", "[1:5]"], r=r)
         chk.count("half-area-rings")
+        # the same rings very small (scaled by 2^-20 and 2^-30: areas far below any absolute tolerance, still exact): direction and
+        # "non-zero area" do not depend on the unit of the coordinates
+        for sc in (2.0 ** -20, 2.0 ** -30):
+            def scaled(x, sc=sc):
+                if isinstance(x, list):
+                    return [scaled(y) for y in x]
+                return None if x is None else x * sc
+            small = [scaled(e) for e in els]
+            check_array(chk, kind, "float64", geo.make_array(kind, small, "float64"), els, hist=[f"scaled by {sc}"], r=r, scale=sc)
+        chk.count("tiny-rings")
         # the same rings far from the origin (coordinates and every term x*(dy) of the coded sum stay exactly representable):
         # the direction of a ring does not depend on where it lies
         for (ox, oy) in ((2 ** 28, -2 ** 27), (10 ** 8, 10 ** 8 + 1), (-2 ** 36, 2 ** 40), (r.randint(2 ** 26, 2 ** 34), -r.randint(2 ** 26, 2 ** 34))):
